@@ -1598,3 +1598,112 @@ func init() {
 		}
 	})
 }
+
+// releasesParamBuffers: fn hands buffers reachable from one of its parameters back to the buffer pool (utils.ReleaseBuffer on
+// the parameter itself or on something loaded through it); returns the parameter indices.
+func (c *Ctx) releasesParamBuffers(fn *ssa.Function, depth int) map[int]bool {
+	out := map[int]bool{}
+	if fn == nil || fn.Blocks == nil || depth > 2 {
+		return out
+	}
+	rootParam := func(v ssa.Value) int {
+		for i := 0; i < 10; i++ {
+			switch x := v.(type) {
+			case *ssa.Parameter:
+				return paramIndex(fn, x)
+			case *ssa.UnOp:
+				v = x.X
+			case *ssa.FieldAddr:
+				v = x.X
+			case *ssa.IndexAddr:
+				v = x.X
+			case *ssa.Field:
+				v = x.X
+			case *ssa.Slice:
+				v = x.X
+			case *ssa.Extract:
+				v = x.Tuple
+			case *ssa.Next:
+				v = x.Iter
+			case *ssa.Range:
+				v = x.X
+			default:
+				return -1
+			}
+		}
+		return -1
+	}
+	for _, site := range callsIn(fn) {
+		name := c.calleeName(site)
+		if name == "utils.ReleaseBuffer" {
+			for _, a := range site.Common().Args {
+				if i := rootParam(a); i >= 0 {
+					out[i] = true
+				}
+			}
+			continue
+		}
+		if g := site.Common().StaticCallee(); g != nil && inModule(fnPkgPath(g)) && g != fn {
+			sub := c.releasesParamBuffers(g, depth+1)
+			for ai, a := range site.Common().Args {
+				if sub[ai] {
+					if i := rootParam(a); i >= 0 {
+						out[i] = true
+					}
+				}
+			}
+		}
+	}
+	return out
+}
+
+func init() {
+	reg := registry["C04"]
+	reg.Meta.Rules["C04.9"] = "a structure whose buffers go back to the pool is not kept: in a function that releases the pooled buffers of an object (directly, deferred, or through a Release-style method) that object is not also stored into a field, map or package variable (a cached header whose message buffers are back in the pool is overwritten by the next read of any other object)"
+	reg.Rules = append(reg.Rules, func(c *Ctx, r *Result) {
+		n := 0
+		for _, fn := range c.LibFuncs() {
+			pk := shortPkg(fnPkgPath(fn))
+			if pk != "hdf5" && pk != "core" && pk != "structures" {
+				continue
+			}
+			for _, site := range callsIn(fn) {
+				g := site.Common().StaticCallee()
+				if g == nil || !inModule(fnPkgPath(g)) || c.Name(g) == "utils.ReleaseBuffer" {
+					continue
+				}
+				rel := c.releasesParamBuffers(g, 0)
+				for ai := range rel {
+					if ai >= len(site.Common().Args) {
+						continue
+					}
+					obj := site.Common().Args[ai]
+					if !isPointerToStruct(obj.Type()) || obj.Referrers() == nil {
+						continue
+					}
+					n++
+					kept := ""
+					for _, ref := range *obj.Referrers() {
+						switch x := ref.(type) {
+						case *ssa.Store:
+							if x.Val == obj {
+								switch x.Addr.(type) {
+								case *ssa.FieldAddr, *ssa.Global, *ssa.IndexAddr:
+									kept = c.InstrPos(x)
+								}
+							}
+						case *ssa.MapUpdate:
+							if x.Value == obj {
+								kept = c.InstrPos(x)
+							}
+						}
+					}
+					r.Check(kept == "", "C04.9", c.Name(fn)+"#"+c.Name(g)+"#released-object-not-kept", c.InstrPos(site.(ssa.Instruction)), "the object whose buffers "+c.Name(g)+" returns to the pool is also stored at "+kept)
+				}
+			}
+		}
+		if n == 0 {
+			r.Hold("C04.9", "module#no-release-of-kept-objects", "", "no function releases the pooled buffers of an object it was handed")
+		}
+	})
+}
